@@ -5,8 +5,10 @@
 import GoluaVerif.Generated.Arith
 import GoluaVerif.Generated.Comp
 import GoluaVerif.Spec.Num
+import GoluaVerif.Proofs.IntDiv
 namespace GoluaVerif.Props.C02
-open GoluaVerif GoluaVerif.Spec
+open GoluaVerif GoluaVerif.Spec GoluaVerif.Proofs
+open GoluaVerif.Generated.Arith
 
 /-- integer addition wraps modulo 2^64 (two's complement) -/
 theorem add_wraps (x y : I64) : (x + y).toInt = Int.bmod (x.toInt + y.toInt) (2 ^ 64) :=
@@ -20,5 +22,93 @@ theorem mul_wraps (x y : I64) : (x * y).toInt = Int.bmod (x.toInt * y.toInt) (2 
 
 theorem unm_wraps (x : I64) : (-x).toInt = Int.bmod (-x.toInt) (2 ^ 64) :=
   BitVec.toInt_neg
+
+/-- `x % y` as computed by the REGENERATED `modInt` (runtime/arith.go) is the manual's modulo
+`x − ⌊x/y⌋·y` for every pair of int64 values with y ≠ 0 (no overflow case is excluded). -/
+theorem modInt_spec (x y : BitVec 64) (hy : y ≠ 0#64) :
+    (modInt x y).toInt = Int.fmod x.toInt y.toInt := by
+  have hy' : y.toInt ≠ 0 := by
+    intro h; apply hy; exact BitVec.eq_of_toInt_eq (by simpa using h)
+  have hyl := @BitVec.toInt_lt 64 y
+  have hyl' := @BitVec.le_toInt 64 y
+  have hr : (x.srem y).toInt = x.toInt.tmod y.toInt := BitVec.toInt_srem x y
+  have hb := tmod_bounds x.toInt y.toInt hy'
+  unfold modInt
+  simp only [Id.run, pure]
+  rw [fmod_of_tmod _ _ hy']
+  have hz : (x.srem y != 0#64) = true ↔ x.toInt.tmod y.toInt ≠ 0 := by rw [ne_zero_iff_toInt, hr]
+  have hs : (x.srem y).slt 0#64 = decide (x.toInt.tmod y.toInt < 0) := by
+    rw [BitVec.slt_eq_decide, hr]; simp
+  have hys : y.slt 0#64 = decide (y.toInt < 0) := by rw [BitVec.slt_eq_decide]; simp
+  rw [hs, hys]
+  by_cases hc : x.toInt.tmod y.toInt ≠ 0 ∧ (decide (x.toInt.tmod y.toInt < 0) != decide (y.toInt < 0)) = true
+  · rw [if_pos hc, if_pos (by rw [Bool.and_eq_true]; exact ⟨hz.mpr hc.1, hc.2⟩)]
+    rw [BitVec.toInt_add, hr]
+    have h2 := hc.2
+    simp only [bne_iff_ne, ne_eq, decide_eq_decide] at h2
+    apply Int.bmod_eq_of_le <;> omega
+  · rw [if_neg hc, if_neg (by rw [Bool.and_eq_true]; intro h; exact hc ⟨hz.mp h.1, h.2⟩)]
+    exact hr
+
+/-- `x // y` as computed by the regenerated `floordivInt` is ⌊x/y⌋ wrapped to 64 bits
+(the only wrapping case is minint // -1). -/
+theorem floordivInt_spec (x y : BitVec 64) (hy : y ≠ 0#64) :
+    (floordivInt x y).toInt = Int.bmod (Int.fdiv x.toInt y.toInt) (2 ^ 64) := by
+  have hy' : y.toInt ≠ 0 := by
+    intro h; apply hy; exact BitVec.eq_of_toInt_eq (by simpa using h)
+  have hr : (x.srem y).toInt = x.toInt.tmod y.toInt := BitVec.toInt_srem x y
+  have hq : (x.sdiv y).toInt = (x.toInt.tdiv y.toInt).bmod (2 ^ 64) := BitVec.toInt_sdiv x y
+  unfold floordivInt
+  simp only [Id.run, pure]
+  rw [fdiv_of_tdiv _ _ hy']
+  have hz : (x.srem y != 0#64) = true ↔ x.toInt.tmod y.toInt ≠ 0 := by rw [ne_zero_iff_toInt, hr]
+  have hs : (x.srem y).slt 0#64 = decide (x.toInt.tmod y.toInt < 0) := by
+    rw [BitVec.slt_eq_decide, hr]; simp
+  have hys : y.slt 0#64 = decide (y.toInt < 0) := by rw [BitVec.slt_eq_decide]; simp
+  rw [hs, hys]
+  by_cases hc : x.toInt.tmod y.toInt ≠ 0 ∧ (decide (x.toInt.tmod y.toInt < 0) != decide (y.toInt < 0)) = true
+  · rw [if_pos hc, if_pos (by rw [Bool.and_eq_true]; exact ⟨hz.mpr hc.1, hc.2⟩)]
+    rw [BitVec.toInt_sub, hq]
+    simp only [Int.bmod_def]
+    simp
+    omega
+  · rw [if_neg hc, if_neg (by rw [Bool.and_eq_true]; intro h; exact hc ⟨hz.mp h.1, h.2⟩)]
+    exact hq
+
+/-- the result of `%` has the sign of the divisor (or is zero) and is smaller in magnitude -/
+theorem mod_sign (x y : BitVec 64) (hy : y ≠ 0#64) :
+    (0 < y.toInt → 0 ≤ (modInt x y).toInt ∧ (modInt x y).toInt < y.toInt) ∧
+    (y.toInt < 0 → y.toInt < (modInt x y).toInt ∧ (modInt x y).toInt ≤ 0) := by
+  rw [modInt_spec x y hy]
+  constructor
+  · intro h; exact ⟨Int.fmod_nonneg_of_pos _ h, Int.fmod_lt_of_pos _ h⟩
+  · intro h
+    have hy' : y.toInt ≠ 0 := by omega
+    rw [Int.fmod_eq_emod]
+    have h0 := Int.emod_nonneg x.toInt hy'
+    have h1 := Int.emod_lt x.toInt hy'
+    have hd : y.toInt ∣ x.toInt ↔ x.toInt % y.toInt = 0 := Int.dvd_iff_emod_eq_zero
+    by_cases hdv : y.toInt ∣ x.toInt
+    · have := hd.mp hdv
+      simp [hdv, this]; omega
+    · have : x.toInt % y.toInt ≠ 0 := fun hh => hdv (hd.mpr hh)
+      have hnn : ¬ (0 ≤ y.toInt) := by omega
+      simp [hdv, hnn]; omega
+
+/-- `x == (x // y) * y + x % y` in 64-bit arithmetic, for every x and every y ≠ 0 -/
+theorem idiv_mod_identity (x y : BitVec 64) (hy : y ≠ 0#64) :
+    floordivInt x y * y + modInt x y = x := by
+  apply BitVec.eq_of_toInt_eq
+  rw [BitVec.toInt_add, BitVec.toInt_mul, modInt_spec x y hy, floordivInt_spec x y hy]
+  have h := Int.fmod_add_mul_fdiv x.toInt y.toInt
+  have hx := @BitVec.toInt_lt 64 x
+  have hx' := @BitVec.le_toInt 64 x
+  rw [Int.bmod_mul_bmod, Int.bmod_add_bmod]
+  rw [Int.mul_comm, Int.add_comm, h]
+  apply Int.bmod_eq_of_le <;> omega
+
+example : modInt (BitVec.ofInt 64 (-7)) 3#64 = 2#64 := by decide
+example : floordivInt (BitVec.ofInt 64 (-7)) 3#64 = BitVec.ofInt 64 (-3) := by decide
+example : floordivInt I64.minInt (BitVec.ofInt 64 (-1)) = I64.minInt := by decide
 
 end GoluaVerif.Props.C02
